@@ -2,6 +2,7 @@ import Gmx.Model.ConfigAccess
 import Gmx.Gen.Layout
 import Gmx.Gen.SdkPool
 import Gmx.Model.PoolOps
+import Gmx.Model.SwapPricing
 /-!
 # C40 — the SDK market model agrees with the on-chain program
 
@@ -94,6 +95,54 @@ for every accessor an action reads, the action's result is equal. (Stated for an
 theorem actions_congruent {P S R : Type} (act : P → S → R) (p₁ p₂ : P) (s : S) (h : p₁ = p₂) :
     act p₁ s = act p₂ s := by rw [h]
 
+/-! ## the scoped pricing setter of the long-lived SDK model -/
+section pricing
+open Gmx.SwapPricing
+
+/-- after `with_swap_pricing(k, f)` the model's pricing kind is what it was before — whatever `f` does,
+in particular when `f` fails (its result type `α` is arbitrary) -/
+theorem withSwapPricing_restores {σ α : Type} (k : PKind) (f : Model σ → Model σ × α) (m : Model σ) :
+    (withSwapPricing k f m).1.pricing = m.pricing := rfl
+
+/-- `f` runs under the requested kind -/
+theorem withSwapPricing_sets {σ α : Type} (k : PKind) (g : PKind → α) (m : Model σ) :
+    (withSwapPricing k (fun m' => (m', g m'.pricing)) m).2 = g k := rfl
+
+/-- nested scopes: the inner scope runs under its own kind, hands the OUTER kind back to the rest of
+the outer closure, and the whole thing restores the original -/
+theorem withSwapPricing_nested {σ α : Type} (k j : PKind) (f : Model σ → Model σ × α) (m : Model σ) :
+    (withSwapPricing k (fun m' => let r := withSwapPricing j f m'; (r.1, (r.1.pricing, r.2))) m).2.1 = k ∧
+    (withSwapPricing k (withSwapPricing j f) m).1.pricing = m.pricing := ⟨rfl, rfl⟩
+
+/-- every step of a history leaves the resting kind alone … -/
+theorem runStep_keeps_resting_kind (pos neg : Nat) (m : Model Unit) (s : Step) :
+    (runStep pos neg m s).1.pricing = m.pricing := by
+  cases s <;> rfl
+
+/-- … so a plain operation after ANY history is priced with the model's own (resting) kind: a
+temporary `Shift` never leaks into later swaps / deposits / withdrawals -/
+theorem plain_step_after_history (pos neg : Nat) (m : Model Unit) (h : List Step) :
+    runHistory pos neg m (h ++ [.plain]) = runHistory pos neg m h ++ [feeFactors pos neg m.pricing] := by
+  induction h generalizing m with
+  | nil => simp [runHistory, runStep, opStep]
+  | cons s rest ih =>
+    have hk := runStep_keeps_resting_kind pos neg m s
+    simp only [List.cons_append, runHistory]
+    cases hr : (runStep pos neg m s).2 with
+    | none => simp only []; rw [ih, hk]
+    | some f => simp only []; rw [ih, hk]; rfl
+
+/-- the fee factors per kind are the ones of the generated SDK wiring: `Shift` rows are literal zeros,
+all other kinds read the two configured swap fee factors -/
+theorem fee_factors_match_sdk_table :
+    (sdkWiring.filter fun r => r.method == .swap_fee_params && r.variant == .swap_pricing_Shift && r.param != .fee_receiver_factor).map (·.src)
+      = [.lit 0, .lit 0] ∧
+    (sdkWiring.filter fun r => r.method == .swap_fee_params && r.variant == .swap_pricing_Swap && r.param != .fee_receiver_factor).map (·.src)
+      = [.field .swap_fee_factor_for_positive_impact, .field .swap_fee_factor_for_negative_impact] := by
+  decide +kernel
+
+end pricing
+
 /-! ## the `Pool` trait implementation -/
 
 /-- every method implemented on both sides has a token-identical body -/
@@ -185,6 +234,8 @@ theorem config_size_spec :
   decide +kernel
 
 /-! ## non-vacuity -/
+example : Gmx.SwapPricing.runHistory 5 7 ⟨.swap, ()⟩ [.scoped .shift, .plain, .nested .deposit .shift, .failing .shift, .plain]
+    = [(0, 0), (5, 7), (0, 0), (5, 7)] := by decide
 example : layouts.length ≥ 50 ∧ (layouts.filter (·.isAccount)).length ≥ 15 := by decide +kernel
 example : progWiring.length ≥ 60 ∧ (sdkNormalise sdkWiring).length ≥ 60 := by decide +kernel
 example : cancelDefault 1000 200 = some (800, 0) ∧ cancelProg 1000 200 = some (800, 0) := by decide
